@@ -118,6 +118,19 @@ pub fn exec(op: &str, a: &[Vec<u8>]) -> Out {
             let (cx, cy) = (CompressedRistretto(need!(b32(&a[0]))), CompressedRistretto(need!(b32(&a[1]))));
             Out::Ok(vec![x.ct_eq(&y).unwrap_u8(), (x == y) as u8, cx.ct_eq(&cy).unwrap_u8(), (cx == cy) as u8])
         }
+        // [elements (n x 32)] -> enc(sum by reference) || enc(sum by value)
+        "rs.sum_many" => {
+            let ps = need!(split32(&a[0]));
+            let mut v = vec![];
+            for p in ps {
+                v.push(need!(rp(p)));
+            }
+            let s1: RistrettoPoint = v.iter().sum();
+            let s2: RistrettoPoint = v.into_iter().sum();
+            let mut o = enc(&s1).to_vec();
+            o.extend_from_slice(&enc(&s2));
+            Out::Ok(o)
+        }
         "rs.batch" => {
             let ps = need!(split32(&a[0]));
             let mut v = vec![];
